@@ -332,3 +332,11 @@ Definition check_mecab_text (g : gram) (allow : bool) (chardef unkdef : text)
       && match snd (err_code e), impl_line with Some a, Some b => a =? b | _, _ => true end
   | SetupPanic => false
   end.
+
+(* userPOS possibly not mentioned in the MeCab provider's settings (see Params.check_load_m) *)
+Definition check_mecab_text_m (g : gram) (m : option bool) (chardef unkdef : text)
+           (impl_status : status) (impl_kind : N) (impl_line : option N) (probes : list probe) : bool :=
+  check_mecab_text g (eff_mode m) chardef unkdef impl_status impl_kind impl_line probes
+  && (if status_eqb impl_status SOk
+      then match mecab_setup g (pos g) (explicit_mode m) chardef unkdef with SetupOk _ _ _ => true | _ => false end
+      else true).
